@@ -240,6 +240,8 @@ theorem render_lexemes (X : TextTbl) : ∀ t, (render X t).map (·.txt) = t.yiel
     simp [render, Tree.yield, tokLex, map_txt_glued, map_txt_spacedWords, map_txt_sp, ih, List.flatMap_append]
   | post o c l e ihl ihe =>
     simp [render, Tree.yield, tokLex, map_txt_glued, ihl, ihe, List.flatMap_append]
+  | arrow o l f a ihl ihf iha =>
+    simp [render, Tree.yield, tokLex, map_txt_glued, map_txt_spacedWords, map_txt_sp, ihl, ihf, iha, List.flatMap_append]
 
 /-- the text of a tree whose rendering is separable lexes into the lexemes of its tokens -/
 theorem lex_render (X : TextTbl) (t : Tree) (h : chainOK X (render X t) = true) (f : Nat)
